@@ -394,7 +394,7 @@ def adams_solver_unit(prop="C03"):
     pub open spec fn err(&self) -> real { self.error_coefficient@ / self.dt@ * vnorm(vsub(self.corrector(), self.predictor())) }
     // ---- the history: equally spaced points with a derivative that belongs to each point's time ----
     pub open spec fn hist_ok(&self) -> bool {
-        hist(O as int, self.dt@, self.dt_max@, self.yield_memory as int, self.time@, self.end@, self.pv(), self.pd(), self.save_state@.len(), self.state@, self.implicit_derivs@)
+        hist(O as int, true, self.dt@, self.dt_max@, self.yield_memory as int, self.time@, self.end@, self.pv(), self.pd(), self.save_state@.len(), self.state@, self.implicit_derivs@)
     }
     // this call tries a predictor-corrector step
     pub open spec fn multistep_trial(&self) -> bool {
@@ -477,6 +477,9 @@ def adams_solver_unit(prop="C03"):
           "(old(self).yield_memory == 0 || old(self).yield_memory == O) && old(self).time@ + old(self).dt@ < old(self).end@ && old(self).pv().len() > 0 && res is Ok ==> "
           "res->Ok_0.0@ == old(self).time@ + old(self).dt@ && res->Ok_0.1@ == old(self).corrector() && old(self).err() <= old(self).tolerance@ "
           "&& final(self).time@ == res->Ok_0.0@ && final(self).state@ == res->Ok_0.1@ && df_ok(old(self).time@ + old(self).dt@, old(self).predictor())",
+          # -- a rejected trial right after the start-up rewinds the clock over the O-1 start-up steps (taken with the OLD dt) and restores the saved state
+          "old(self).multistep_trial() && old(self).yield_memory == O && res is Err && res->Err_0 is Redo && final(self).yield_memory == O ==> "
+          "final(self).time@ == old(self).time@ - old(self).dt@ * (old(self).order@ - 1real) && final(self).state@ == old(self).save_state@",
           # -- no room for a start-up before the end: one classical RK4 step of the current length, yielded at once
           "old(self).yield_memory != O + 1 && !(0 < old(self).yield_memory < O) && old(self).time@ + old(self).dt@ < old(self).end@ && old(self).pv().len() == 0 "
           "&& old(self).time@ + old(self).dt@ * old(self).order@ >= old(self).end@ && res is Ok ==> res->Ok_0.0@ == old(self).time@ + old(self).dt@ "
@@ -488,13 +491,13 @@ def adams_solver_unit(prop="C03"):
           # C01: ordered, inside the interval, gap-bounded (for the points produced by this call)
           "(old(self).yield_memory == 0 || old(self).yield_memory == O) && res is Ok ==> old(self).time@ < res->Ok_0.0@ <= old(self).end@ && res->Ok_0.0@ - old(self).time@ <= old(self).dt_max@")
     def A(x):
-        return (f"O as int, {x}.dt@, {x}.dt_max@, {x}.yield_memory as int, {x}.time@, {x}.end@, {x}.pv(), {x}.pd(), {x}.save_state@.len(), {x}.state@, {x}.implicit_derivs@")
+        return (f"O as int, true, {x}.dt@, {x}.dt_max@, {x}.yield_memory as int, {x}.time@, {x}.end@, {x}.pv(), {x}.pd(), {x}.save_state@.len(), {x}.state@, {x}.implicit_derivs@")
     g.hint("begin", "let ghost s0 = *self; proof { lemma_hist_basic(" + A("s0") + "); if !(s0.time@ >= s0.end@ && (s0.yield_memory == 0 || s0.yield_memory == O)) { lemma_hist_use(" + A("s0") + "); } }")
     # -- yield a start-up point
-    g.hint("before: return Ok(self.prev_values[get_item]", "proof { lemma_hist_yield(O as int, s0.dt@, s0.dt_max@, s0.yield_memory as int, self.yield_memory as int, s0.time@, s0.end@, s0.pv(), s0.pd(), s0.save_state@.len(), s0.state@, s0.implicit_derivs@); }")
+    g.hint("before: return Ok(self.prev_values[get_item]", "proof { lemma_hist_yield(O as int, true, s0.dt@, s0.dt_max@, s0.yield_memory as int, self.yield_memory as int, s0.time@, s0.end@, s0.pv(), s0.pd(), s0.save_state@.len(), s0.state@, s0.implicit_derivs@); }")
     # -- hand the first multistep point over
     g.hint("before: #1 return Ok((self.time.real(), self.state.clone()));", """proof {
-            lemma_hist_handover(O as int, s0.dt@, s0.dt_max@, s0.time@, s0.end@, s0.pv(), s0.pd(), s0.save_state@.len(), s0.state@, s0.implicit_derivs@);
+            lemma_hist_handover(O as int, true, s0.dt@, s0.dt_max@, s0.time@, s0.end@, s0.pv(), s0.pd(), s0.save_state@.len(), s0.state@, s0.implicit_derivs@);
             assert(self.pv() =~= s0.pv().push((s0.time@, s0.state@)).drop_first());
             assert(self.pd() =~= s0.pd().push(s0.implicit_derivs@).drop_first());
         }""")
@@ -524,7 +527,7 @@ def adams_solver_unit(prop="C03"):
                 assert forall|i: int| 0 <= i < pvn.len() - 1 implies #[trigger] spaced(pvn, i, self.dt@) by {
                     reveal_with_fuel(rk_t, 2); assert(pre5.rkt(i + 2) == pre5.rkt(i + 1) + pre5.dt@);
                 }
-                assert forall|i: int| 0 <= i < pvn.len() implies #[trigger] entry_ok(pvn, pdn, i, dim) by {
+                assert forall|i: int| 0 <= i < pvn.len() implies #[trigger] entry_ok(pvn, pdn, i, dim, true) by {
                     assert(pdn[i] == df_val(pvn[i].0, pre5.rky(i + 1)));
                     assert(pre5.rky(i + 1).len() == dim);
                 }
@@ -543,20 +546,20 @@ def adams_solver_unit(prop="C03"):
             }""")
     # -- predictor-corrector trial
     PRE = ["pre.inv() && pre.frame(&s0) && s0.inv() && (pre.yield_memory == 0 || pre.yield_memory == O) && pre.pv().len() == O - 1 && pre.pd().len() == O - 1 && pre.time@ + pre.dt@ < pre.end@",
-           "forall|k: int| 0 <= k < O - 1 ==> #[trigger] entry_ok(pre.pv(), pre.pd(), k, pre.state@.len())",
+           "forall|k: int| 0 <= k < O - 1 ==> #[trigger] entry_ok(pre.pv(), pre.pd(), k, pre.state@.len(), true)",
            "self.frame(&pre)", "self.scratch_pad@.len() == self.state@.len()"]
     g.hint("before: self.scratch_pad = &self.prev_derivatives[0]", """let ghost pre = *self;
         proof {
-            assert(entry_ok(pre.pv(), pre.pd(), 0, pre.state@.len()));
+            assert(entry_ok(pre.pv(), pre.pd(), 0, pre.state@.len(), true));
             assert(pre.psum(1) == vscale(pre.pd()[0], pre.predictor_coefficients@[O - 2]@));
         }""")
     g.loop(1, invariant=PRE + ["1 <= i <= O - 1", "self.scratch_pad@ == pre.psum(i as int)", "self.implicit_derivs == pre.implicit_derivs"])
-    g.hint("loop 1 begin", "proof { assert(entry_ok(pre.pv(), pre.pd(), i as int, pre.state@.len())); }")
+    g.hint("loop 1 begin", "proof { assert(entry_ok(pre.pv(), pre.pd(), i as int, pre.state@.len(), true)); }")
     g.hint("after: let predictor =", "proof { assert(predictor@ == pre.predictor()); }")
     g.hint("before: self.scratch_pad = &self.implicit_derivs", "proof { assert(self.implicit_derivs@ == pre.imp()); assert(df_ok(pre.time@ + pre.dt@, pre.predictor())); }")
     g.loop(2, invariant=PRE + ["0 <= i <= O - 1", "self.scratch_pad@ == pre.csum(i as int)", "self.implicit_derivs@ == pre.imp() && self.implicit_derivs@.len() == self.state@.len()",
                                "predictor@ == pre.predictor() && predictor@.len() == self.state@.len()", "df_ok(pre.time@ + pre.dt@, pre.predictor())"])
-    g.hint("loop 2 begin", "proof { assert(entry_ok(pre.pv(), pre.pd(), i as int, pre.state@.len())); }")
+    g.hint("loop 2 begin", "proof { assert(entry_ok(pre.pv(), pre.pd(), i as int, pre.state@.len(), true)); }")
     g.hint("after: let error =", """proof {
             assert(corrector@ == pre.corrector()); assert(error@ == pre.err());
             let n = vnorm(vsub(pre.corrector(), pre.predictor())); let ec = pre.error_coefficient@; let d = pre.dt@;
@@ -565,10 +568,10 @@ def adams_solver_unit(prop="C03"):
             assert(deriv_at(self.implicit_derivs@, pre.time@ + pre.dt@));
         }""")
     # accepted right after start-up: kept aside
-    g.hint("before: #2 return Err(IVPStatus::Redo);", "proof { lemma_hist_aside(O as int, pre.dt@, pre.dt_max@, pre.time@, pre.end@, pre.pv(), pre.pd(), pre.save_state@.len(), pre.state@, pre.implicit_derivs@, self.time@, self.state@, self.implicit_derivs@); }")
+    g.hint("before: #2 return Err(IVPStatus::Redo);", "proof { lemma_hist_aside(O as int, true, pre.dt@, pre.dt_max@, pre.time@, pre.end@, pre.pv(), pre.pd(), pre.save_state@.len(), pre.state@, pre.implicit_derivs@, self.time@, self.state@, self.implicit_derivs@); }")
     # accepted: enters the history
     g.hint("before: if error < self.one_tenth.real() * self.tolerance.real()", """proof {
-                lemma_hist_shift(O as int, pre.dt@, pre.dt_max@, pre.time@, pre.end@, pre.pv(), pre.pd(), pre.save_state@.len(), pre.state@, pre.implicit_derivs@, self.time@, self.state@, self.implicit_derivs@);
+                lemma_hist_shift(O as int, true, pre.dt@, pre.dt_max@, pre.time@, pre.end@, pre.pv(), pre.pd(), pre.save_state@.len(), pre.state@, pre.implicit_derivs@, self.time@, self.state@, self.implicit_derivs@);
                 assert(self.pv() =~= pre.pv().push((self.time@, self.state@)).drop_first());
                 assert(self.pd() =~= pre.pd().push(self.implicit_derivs@).drop_first());
             }""")
@@ -594,8 +597,382 @@ def adams_solver_unit(prop="C03"):
     return u, f
 
 
+
+BD = "src/ivp/bdf.rs"
+# Backward differentiation formulas, normalised so that the new value has coefficient 1:
+#   y_{n+1} + a_1 y_n + ... + a_k y_{n+1-k} = b h f(t_{n+1}, y_{n+1})
+# Hairer, Norsett, Wanner, Solving ODEs I, III.1 (1.22'); Burden & Faires section 5.11.  Index 0 is b, index j >= 1 is a_j.
+BDF_REF = r"""
+pub open spec fn bdf1(i: int) -> real { if i == 0 { 1real } else if i == 1 { -1real } else { 0real } }
+pub open spec fn bdf2(i: int) -> real { if i == 0 { 2real / 3real } else if i == 1 { -(4real / 3real) } else if i == 2 { 1real / 3real } else { 0real } }
+pub open spec fn bdf5(i: int) -> real { if i == 0 { 60real / 137real } else if i == 1 { -(300real / 137real) } else if i == 2 { 300real / 137real } else if i == 3 { -(200real / 137real) }
+    else if i == 4 { 75real / 137real } else if i == 5 { -(12real / 137real) } else { 0real } }
+pub open spec fn bdf6(i: int) -> real { if i == 0 { 60real / 147real } else if i == 1 { -(360real / 147real) } else if i == 2 { 450real / 147real } else if i == 3 { -(400real / 147real) }
+    else if i == 4 { 225real / 147real } else if i == 5 { -(72real / 147real) } else if i == 6 { 10real / 147real } else { 0real } }
+// consistency of the transcription: exact for constants (1 + sum a_j = 0) and for y = t (-sum j a_j = b)
+pub proof fn lemma_bdf_reference_consistent()
+    ensures 1real + bdf1(1) == 0real, -(bdf1(1)) == bdf1(0),
+        1real + bdf2(1) + bdf2(2) == 0real, -(bdf2(1) + 2real * bdf2(2)) == bdf2(0),
+        1real + bdf5(1) + bdf5(2) + bdf5(3) + bdf5(4) + bdf5(5) == 0real, -(bdf5(1) + 2real * bdf5(2) + 3real * bdf5(3) + 4real * bdf5(4) + 5real * bdf5(5)) == bdf5(0),
+        1real + bdf6(1) + bdf6(2) + bdf6(3) + bdf6(4) + bdf6(5) + bdf6(6) == 0real,
+        -(bdf6(1) + 2real * bdf6(2) + 3real * bdf6(3) + 4real * bdf6(4) + 5real * bdf6(5) + 6real * bdf6(6)) == bdf6(0),
+{}
+"""
+
+
+def bdf_tableau_unit(name, st, order, hi, lo):
+    c = Config(extra_subst=[(f"BSVector<Self::RealField, {order}>", "Vec<R>"), ("BSVector::from_column_slice", "vx_vec_from_slice"), ("Self::RealField", "R")])
+    u = Unit("C03", name, preludes=("real", "stdx", "rkm"), cfg=c)
+    u.spec(BDF_REF)
+    u.spec(f"pub struct {st};")
+    im = u.impl(BD, f"BDFCoefficients<{order}> for {st}<N>", header=f"impl {st}", keep_assoc=False)
+    f = im.fn("higher_coefficients")
+    f.ens(f"res is Some && res->Some_0@.len() == {order} && forall|i: int| 0 <= i < {order} ==> #[trigger] res->Some_0@[i]@ == {hi}(i)")
+    f = im.fn("lower_coefficients")
+    f.ens(f"res is Some && res->Some_0@.len() == {order} && forall|i: int| 0 <= i < {order} ==> #[trigger] res->Some_0@[i]@ == {lo}(i)")
+    return u
+
+
+
+BDF_SPEC = r"""
+// the function whose zero the quasi-Newton solver looks for (the residual closure), as a pure function of (t, y)
+pub uninterp spec fn GV(t: real, y: Seq<real>) -> Seq<real>;
+"""
+
+
+def bdf_solver_unit(prop="C03"):
+    c = cfg(extra=[("BDFSolver<'a, N, D, O, T, F>", "BDFSolver<D, O, T, F>"), ("BSVector<N, O>", "Vec<R>"), ("BMatrix<N, D, D>", "DMx"),
+                   ("BMatrix::from_element_generic(self.dim, self.dim, N::zero())", "DMx::zeros(self.dim, self.dim)"),
+                   ("Step<Self::RealField, Self::Field, D, Self::Error>", "Result<(R, V), IVPStatus<IVPError>>")])
+    c.drop_pred = ["D:DimMin<D,Output=D>"]
+    c.extra = list(c.extra) + [("G: FnMut(&mut Self, N::RealField, &[N], &mut T) -> Result<BVector<N, D>, UserError>",
+                                "G: FnMut(&mut Self, R, &[R], &mut T) -> Result<V, UserError>", "R1-type-instantiation")]
+    u = Unit(prop, "bdf_solver", preludes=("real", "stdx", "ivp", "rkm", "deque", "dmx"), cfg=c)
+    u.crate_attrs = ["#![feature(allocator_api)]"]
+    u.rlimit = 100
+    u.timeout = 400
+    u.spec("use std::collections::VecDeque;")
+    u.item("src/lib.rs", "enum", "DimensionError")
+    u.item("src/ivp.rs", "enum", "IVPError")
+    u.item("src/ivp.rs", "enum", "IVPStatus")
+    u.item(BD, "struct", "BDFSolver")
+    u.spec(CALLBACK_SPEC)
+    u.spec(ADAMS_SPEC)
+    u.spec(HIST_SPEC)
+    u.spec(BDF_SPEC)
+    G = "<D: Dimension, const O: usize, T: Clone, F: FnMut(R, &[R], &mut T) -> Result<V, UserError>>"
+    u.spec("impl" + G + r""" BDFSolver<D, O, T, F> {
+    pub open spec fn setup_ok(&self) -> bool {
+        &&& 3 <= O <= 64 && self.higher_coefficients@.len() == O && self.lower_coefficients@.len() == O
+        &&& self.one_tenth@ == 1real / 10real && self.one_sixth@ == 1real / 6real && self.half@ == 1real / 2real && self.two@ == 2real
+        &&& self.order@ == O as real && self.dt_max@ > 0real && self.tolerance@ > 0real && self.state@.len() == self.dim.size()
+        &&& (forall|t: R, y: &[R], d: &mut T| #[trigger] self.derivative.requires((t, y, d)))
+        &&& (forall|t: R, y: &[R], d: &mut T, r: Result<V, UserError>| #[trigger] self.derivative.ensures((t, y, d), r) ==>
+              (df_ok(t@, slice_view(y)) ==> r is Ok && r->Ok_0@ == df_val(t@, slice_view(y)) && r->Ok_0@.len() == y@.len())
+              && (!df_ok(t@, slice_view(y)) ==> r is Err && r->Err_0 == df_err(t@, slice_view(y))))
+    }
+    pub open spec fn same_setup(&self, o: &Self) -> bool {
+        self.higher_coefficients == o.higher_coefficients && self.lower_coefficients == o.lower_coefficients && self.dim == o.dim
+        && self.end == o.end && self.dt_max == o.dt_max && self.dt_min == o.dt_min && self.tolerance == o.tolerance && self.derivative == o.derivative
+        && self.one_tenth == o.one_tenth && self.one_sixth == o.one_sixth && self.half == o.half && self.two == o.two && self.order == o.order
+    }
+    // every field but scratch_pad
+    pub open spec fn frame(&self, o: &Self) -> bool {
+        self.same_setup(o) && self.time == o.time && self.state == o.state && self.dt == o.dt && self.data == o.data && self.prev_values == o.prev_values
+        && self.save_state == o.save_state && self.yield_memory == o.yield_memory
+    }
+    pub open spec fn rk4s(&self, t: real, y: Seq<real>, h: real) -> Seq<real> { rk4(t, y, h, self.half@, self.two@, self.one_sixth@) }
+    pub open spec fn rky(&self, n: int) -> Seq<real> { rk_y(self.time@, self.state@, self.dt@, n, self.half@, self.two@, self.one_sixth@) }
+    pub open spec fn rkt(&self, n: int) -> real { rk_t(self.time@, self.dt@, n) }
+    pub open spec fn pv(&self) -> Seq<(real, Seq<real>)> { pvv(self.prev_values) }
+    // BDF keeps values only: the "derivative history" slot of the shared invariant is filled with the stored states
+    pub open spec fn pdb(&self) -> Seq<Seq<real>> { Seq::new(self.pv().len(), |i: int| self.pv()[i].1) }
+    // O stored points, sentinels O + 1 / O + 2: the shared history invariant at o = O + 1
+    pub open spec fn hist_ok(&self) -> bool {
+        hist(O as int + 1, false, self.dt@, self.dt_max@, self.yield_memory as int, self.time@, self.end@, self.pv(), self.pdb(), self.save_state@.len(), self.state@, self.state@)
+    }
+    pub open spec fn inv(&self) -> bool { self.setup_ok() && self.hist_ok() && self.time@ <= self.end@ }
+    // ---- the BDF residual with coefficient row c (c[0] = b, c[j] = a_j):  y - b h f(t, y) + sum_{j=1}^{O-1} a_j y_{n+1-j},
+    //      y_{n+1-j} being the stored point prev_values[O - j] (prev_values[O - 1] is the current point)
+    pub open spec fn bres(&self, c: Seq<real>, t: real, y: Seq<real>, n: int) -> Seq<real> decreases n {
+        if n <= 1 { vscale(vscale(vneg(df_val(t, y)), self.dt@), c[0]) }
+        else { vadd(self.bres(c, t, y, n - 1), vscale(self.pv()[O - (n - 1)].1, c[n - 1])) }
+    }
+    pub open spec fn residual(&self, c: Seq<real>, t: real, y: Seq<real>) -> Seq<real> { vadd(self.bres(c, t, y, O as int), y) }
+    // this call tries a multistep step
+    pub open spec fn multistep_trial(&self) -> bool {
+        (self.yield_memory == 0 || self.yield_memory == O + 1) && self.time@ + self.dt@ < self.end@ && self.pv().len() > 0
+    }
+    // the residual closures can run: coefficients and a complete history of the state's dimension (all in fields that g leaves alone)
+    pub open spec fn res_ok(&self) -> bool {
+        self.setup_ok() && self.pv().len() == O && forall|i: int| 0 <= i < O ==> (#[trigger] self.pv()[i]).1.len() == self.state@.len()
+    }
+}
+// what the quasi-Newton routines assume of the function g they are handed: it is called at the NEW time only, on a solver
+// whose history is complete and on an argument of the state's dimension; it leaves every field of the solver but scratch_pad alone
+pub open spec fn g_req<D: Dimension, const O: usize, T: Clone, F: FnMut(R, &[R], &mut T) -> Result<V, UserError>>(s: &mut BDFSolver<D, O, T, F>, t: R, y: &[R]) -> bool {
+    t@ == (*s).time@ + (*s).dt@ && (*s).res_ok() && y@.len() == (*s).state@.len()
+}
+#[verifier::prophetic]
+pub open spec fn g_ens<D: Dimension, const O: usize, T: Clone, F: FnMut(R, &[R], &mut T) -> Result<V, UserError>>(s: &mut BDFSolver<D, O, T, F>, t: R, y: &[R], r: Result<V, UserError>) -> bool {
+    final(s).frame(&*s) && (r is Ok ==> r->Ok_0@.len() == y@.len())
+}
+// g computes the pure function gf of (t, y)
+pub open spec fn computes<D: Dimension, const O: usize, T: Clone, F: FnMut(R, &[R], &mut T) -> Result<V, UserError>, G: FnMut(&mut BDFSolver<D, O, T, F>, R, &[R], &mut T) -> Result<V, UserError>>(
+    g: G, gf: spec_fn(real, Seq<real>) -> Seq<real>) -> bool {
+    forall|s: &mut BDFSolver<D, O, T, F>, t: R, y: &[R], d: &mut T, r: Result<V, UserError>| #[trigger] g.ensures((s, t, y, d), r) && r is Ok ==> r->Ok_0@ == gf(t@, slice_view(y))
+}
+// the matrix m holds the central differences of gf at (tt, x) with width h
+pub open spec fn fd_of(m: int, gf: spec_fn(real, Seq<real>) -> Seq<real>, tt: real, x: Seq<real>, h: real, rows: int, cols: int) -> bool {
+    forall|r: int, c: int| #![trigger dentry(m, r, c)] 0 <= r < rows && 0 <= c < cols ==>
+        dentry(m, r, c) == (gf(tt, x.update(c, x[c] + h))[r] - gf(tt, x.update(c, x[c] - h))[r]) * (1real / (2real * h))
+}
+""")
+    GT = "FnMut(&mut Self, R, &[R], &mut T) -> Result<V, UserError>"
+    im = u.impl(BD, "BDFSolver<'a, N, D, O, T, F>", header="impl" + G + " BDFSolver<D, O, T, F>", keep_assoc=False)
+    j = im.fn("jac_finite_diff")
+    j.attrs = []
+    j.opt(index_vector=("x",), bind_self_args=("g",), subst=[("mat.column_iter_mut()", "0..mat.ncols()", "R26-column-iter-mut"),
+                                                              ("col.set_column(0,", "mat.set_column(ind,", "R26-column-iter-mut")])
+    j.req("old(self).res_ok()", "old(x)@.len() == old(self).dim.size()", "old(self).dt@ != 0real",
+          "forall|s: &mut Self, t: R, y: &[R], d: &mut T| g_req(s, t, y) ==> #[trigger] (*old(g)).requires((s, t, y, d))",
+          "forall|s: &mut Self, t: R, y: &[R], d: &mut T, r: Result<V, UserError>| #[trigger] (*old(g)).ensures((s, t, y, d), r) ==> g_ens(s, t, y, r)")
+    j.ens("final(self).frame(old(self))",
+          "forall|s: &mut Self, t: R, y: &[R], d: &mut T| g_req(s, t, y) ==> #[trigger] (*final(g)).requires((s, t, y, d))",
+          "forall|s: &mut Self, t: R, y: &[R], d: &mut T, r: Result<V, UserError>| #[trigger] (*final(g)).ensures((s, t, y, d), r) ==> g_ens(s, t, y, r) && (*old(g)).ensures((s, t, y, d), r)",
+          "res is Ok ==> final(x)@ == old(x)@",
+          # for EVERY pure function gf that g computes: the result holds the central DIFFERENCES of gf at the new time, width dt
+          "res is Ok ==> forall|gf: spec_fn(real, Seq<real>) -> Seq<real>| #[trigger] computes(*old(g), gf) ==> "
+          "fd_of(res->Ok_0.id@, gf, old(self).time@ + old(self).dt@, old(x)@, old(self).dt@, old(self).dim.size() as int, old(self).dim.size() as int)")
+    f = im.fn("runge_kutta")
+    f.attrs = []
+    f.req("old(self).setup_ok()", "iterations >= 1")
+    f.ens("final(self).same_setup(old(self)) && final(self).dt == old(self).dt && final(self).yield_memory == old(self).yield_memory && final(self).save_state == old(self).save_state",
+          "final(self).state@.len() == old(self).state@.len()",
+          "res is Ok ==> final(self).time@ == old(self).rkt(iterations as int) && final(self).state@ == old(self).rky(iterations as int)",
+          "res is Ok ==> pvv(final(self).prev_values) == pvv(old(self).prev_values) + Seq::new(iterations as nat, |j: int| (old(self).rkt(j + 1), old(self).rky(j + 1)))",
+          "res is Ok ==> forall|j: int| 0 <= j <= iterations ==> (#[trigger] old(self).rky(j)).len() == old(self).state@.len()")
+    f.loop(1, invariant=[
+        "forall|j: int| 0 <= j <= i ==> (#[trigger] old(self).rky(j)).len() == old(self).state@.len()",
+        "self.setup_ok()", "self.same_setup(old(self)) && self.dt == old(self).dt && self.yield_memory == old(self).yield_memory && self.save_state == old(self).save_state",
+        "self.state@.len() == old(self).state@.len()", "iterations >= 1",
+        "self.time@ == old(self).rkt(i as int) && self.state@ == old(self).rky(i as int)",
+        "pvv(self.prev_values) == pvv(old(self).prev_values) + Seq::new(if i >= 1 { (i - 1) as nat } else { 0nat }, |j: int| (old(self).rkt(j + 1), old(self).rky(j + 1)))"])
+    f.hint("loop 1 begin", "let ghost pv0 = pvv(self.prev_values); let ghost t_i = self.time@; let ghost y_i = self.state@;")
+    f.hint("before: self.state +=", """proof {
+                if i != 0 {
+                    assert(pvv(self.prev_values) =~= pv0.push((t_i, y_i)));
+                    assert(pvv(self.prev_values) =~= pvv(old(self).prev_values) + Seq::new(i as nat, |j: int| (old(self).rkt(j + 1), old(self).rky(j + 1))));
+                }
+            }""")
+    f.hint("loop 1 end", """proof {
+                assert(self.state@ == old(self).rk4s(t_i, y_i, self.dt@));
+                assert(old(self).rky(i as int + 1) == old(self).rk4s(old(self).rkt(i as int), old(self).rky(i as int), old(self).dt@));
+                assert(old(self).rkt(i as int + 1) == old(self).rkt(i as int) + old(self).dt@);
+            }""")
+    f.hint("after loop 1", "let ghost pv1 = pvv(self.prev_values); let ghost nn = iterations as int;")
+    f.hint("before: Ok(())", """proof {
+            assert(pvv(self.prev_values) =~= pv1.push((self.time@, self.state@)));
+            assert(pvv(self.prev_values) =~= pvv(old(self).prev_values) + Seq::new(nn as nat, |j: int| (old(self).rkt(j + 1), old(self).rky(j + 1))));
+        }""")
+    GSPEC = ["forall|s: &mut Self, t: R, y: &[R], d: &mut T| g_req(s, t, y) ==> #[trigger] (*g).requires((s, t, y, d))",
+             "forall|s: &mut Self, t: R, y: &[R], d: &mut T, r: Result<V, UserError>| #[trigger] (*g).ensures((s, t, y, d), r) ==> g_ens(s, t, y, r) && (*old(g)).ensures((s, t, y, d), r)"]
+    j.loop(1, iter="it", invariant=GSPEC + [
+        "it.iter.end == self.dim.size()",
+        "self.frame(old(self)) && self.res_ok() && self.dt@ != 0real", "x@ == old(x)@ && x@.len() == self.dim.size()", "ind == col",
+        "dncols(mat.id@) == self.dim.size()", "denom@ == 1real / (2real * self.dt@)",
+        "forall|gf: spec_fn(real, Seq<real>) -> Seq<real>| #[trigger] computes(*old(g), gf) ==> fd_of(mat.id@, gf, self.time@ + self.dt@, old(x)@, self.dt@, self.dim.size() as int, ind as int)"])
+    j.hint("loop 1 begin", "let ghost x0 = x@; let ghost cv = ind as int; let ghost m0 = mat.id@;")
+    j.hint("after: let above =", "proof { assert(x@ =~= x0.update(cv, x0[cv] + self.dt@)); }")
+    j.hint("after: let below =", "proof { assert(x@ =~= x0.update(cv, x0[cv] - self.dt@)); }")
+    j.hint("before: col.set_column", "proof { assert(x@ =~= x0); }")
+    sc = im.fn("secant")
+    sc.attrs = []
+    sc.opt(bind_self_args=("g",), add_assign=("guess", "jac_inv"),
+           subst=[("(-&s_transpose * &adjustment)[(0, 0)]", "s_transpose.vx_neg_mul_ref(&adjustment).vx_at((0, 0))", "R29-ref-operator-as-call+R22-index-read"),
+                  ("-&jac_inv * &derivative", "jac_inv.vx_neg_mul_ref(&derivative)", "R29-ref-operator-as-call"),
+                  ("s_transpose * &jac_inv", "s_transpose.vx_mul_ref(&jac_inv)", "R29-ref-operator-as-call"),
+                  ("-&jac_inv * difference", "jac_inv.vx_neg_mul(difference)", "R29-ref-operator-as-call"),
+                  ("&derivative - &derivative_last", "derivative.vx_sub_ref(&derivative_last)", "R29-ref-operator-as-call")])
+    sc.req("old(self).res_ok()", "old(self).dt@ != 0real",
+           "forall|s: &mut Self, t: R, y: &[R], d: &mut T| g_req(s, t, y) ==> #[trigger] (*old(g)).requires((s, t, y, d))",
+           "forall|s: &mut Self, t: R, y: &[R], d: &mut T, r: Result<V, UserError>| #[trigger] (*old(g)).ensures((s, t, y, d), r) ==> g_ens(s, t, y, r)")
+    # the function handed in is only ever evaluated at the NEW time (precondition g_req of every call), the solver is left as it was
+    sc.ens("final(self).frame(old(self))", "res is Ok ==> res->Ok_0@.len() == old(self).state@.len()")
+    sc.hint("before: let jac =", "proof { assert(forall|s: &mut Self, t: R, y: &[R], d: &mut T, r: Result<V, UserError>| #[trigger] (*g).ensures((s, t, y, d), r) ==> (*old(g)).ensures((s, t, y, d), r)); }")
+    sc.loop(1, invariant=GSPEC + ["self.frame(old(self)) && self.res_ok() && self.dt@ != 0real", "n <= 1000",
+                                  "guess@.len() == self.state@.len() && derivative@.len() == self.state@.len() && shift@.len() == self.state@.len()"],
+            decreases="1000 - n")
+    im2 = u.impl(BD, "IVPStepper<D> for BDFSolver<'a, N, D, O, T, F>", header="impl" + G + " BDFSolver<D, O, T, F>", keep_assoc=False)
+    st = im2.fn("step")
+    st.attrs = []
+    st.opt(bind_self_args=("g",),
+           subst=[("self.prev_values[get_item].clone()", "(self.prev_values[get_item].0.clone(), self.prev_values[get_item].1.clone())", "R28-tuple-clone"),
+                  ("&higher_step - &lower_step", "higher_step.vx_sub_ref(&lower_step)", "R29-ref-operator-as-call"),
+                  (".column(0).iter()", ".iter()", "R26-column-of-a-column-vector"),
+                  ("BVector::from_column_slice_generic(bdf.dim, U1::name(), y)", "V::vx_from_slice(bdf.dim, y)", "R13-vector-from-slice"),
+                  ("self.runge_kutta(1)?", "(match self.runge_kutta(1) { Ok(v_) => v_, Err(e_) => return Err(From::from(e_)) })", "R16-question-mark-convert"),
+                  ("self.runge_kutta(O)?", "(match self.runge_kutta(O) { Ok(v_) => v_, Err(e_) => return Err(From::from(e_)) })", "R16-question-mark-convert"),
+                  ("self.secant(&mut higher_func)?", "(match self.secant(&mut higher_func) { Ok(v_) => v_, Err(e_) => return Err(From::from(e_)) })", "R16-question-mark-convert"),
+                  ("self.secant(&mut lower_func)?", "(match self.secant(&mut lower_func) { Ok(v_) => v_, Err(e_) => return Err(From::from(e_)) })", "R16-question-mark-convert")])
+    st.req("old(self).inv()")
+    def AB(x):
+        return (f"O as int + 1, false, {x}.dt@, {x}.dt_max@, {x}.yield_memory as int, {x}.time@, {x}.end@, {x}.pv(), {x}.pdb(), {x}.save_state@.len(), {x}.state@, {x}.state@")
+    st.ens("!(res is Err && res->Err_0 is Failure) ==> final(self).inv()", "final(self).same_setup(old(self))",
+           # -- yielding a start-up point
+           "0 < old(self).yield_memory <= O ==> res is Ok && (res->Ok_0.0@, res->Ok_0.1@) == old(self).pv()[O - old(self).yield_memory] "
+           "&& final(self).time == old(self).time && final(self).state == old(self).state && final(self).dt == old(self).dt",
+           # -- handing over the first multistep point
+           "old(self).yield_memory == O + 2 ==> res is Ok && res->Ok_0.0@ == old(self).time@ && res->Ok_0.1@ == old(self).state@ && final(self).yield_memory == 0 "
+           "&& final(self).time == old(self).time && final(self).state == old(self).state && final(self).dt == old(self).dt",
+           "(old(self).yield_memory == 0 || old(self).yield_memory == O + 1) && old(self).time@ >= old(self).end@ ==> res is Err && res->Err_0 is Done",
+           # -- the last step is one classical RK4 step that lands exactly on the end time
+           "(old(self).yield_memory == 0 || old(self).yield_memory == O + 1) && old(self).time@ < old(self).end@ && old(self).time@ + old(self).dt@ >= old(self).end@ && res is Ok ==> "
+           "res->Ok_0.0@ == old(self).end@ && final(self).time@ == old(self).end@ && res->Ok_0.1@ == old(self).rk4s(old(self).time@, old(self).state@, old(self).end@ - old(self).time@)",
+           # -- no room for a start-up: one RK4 step
+           "old(self).yield_memory != O + 2 && !(0 < old(self).yield_memory <= O) && old(self).time@ + old(self).dt@ < old(self).end@ && old(self).pv().len() == 0 "
+           "&& old(self).time@ + old(self).dt@ * (old(self).order@ + 1real) >= old(self).end@ && res is Ok ==> res->Ok_0.0@ == old(self).time@ + old(self).dt@ "
+           "&& res->Ok_0.1@ == old(self).rk4s(old(self).time@, old(self).state@, old(self).dt@) && final(self).time@ == res->Ok_0.0@ && final(self).state@ == res->Ok_0.1@",
+           # -- an accepted multistep point advances the clock by dt (its value is what the quasi-Newton solver returned for the
+           #    order-(O-1) BDF residual at the new time: closure contracts below; that the residual is small is NOT decided)
+           "old(self).multistep_trial() && res is Ok ==> res->Ok_0.0@ == old(self).time@ + old(self).dt@ && final(self).time@ == res->Ok_0.0@ && final(self).state@ == res->Ok_0.1@",
+           # -- a rejected trial right after the start-up rewinds the clock over the O start-up steps and restores the saved state
+           "old(self).multistep_trial() && old(self).yield_memory == O + 1 && res is Err && res->Err_0 is Redo && final(self).yield_memory == O + 1 ==> "
+           "final(self).time@ == old(self).time@ - old(self).dt@ * old(self).order@ && final(self).state@ == old(self).save_state@",
+           # C01
+           "res is Err && res->Err_0 is Done ==> !(old(self).yield_memory == O + 1 && old(self).pv().len() == O)",
+           "(old(self).yield_memory == 0 || old(self).yield_memory == O + 1) && old(self).time@ < old(self).end@ && old(self).time@ + old(self).dt@ >= old(self).end@ "
+           "==> !(old(self).yield_memory == O + 1 && old(self).pv().len() == O)",
+           "(old(self).yield_memory == 0 || old(self).yield_memory == O + 1) && res is Ok ==> old(self).time@ < res->Ok_0.0@ <= old(self).end@ && res->Ok_0.0@ - old(self).time@ <= old(self).dt_max@")
+    st.hint("begin", "let ghost s0 = *self; proof { lemma_hist_basic(" + AB("s0") + "); if !(s0.time@ >= s0.end@ && (s0.yield_memory == 0 || s0.yield_memory == O + 1)) { lemma_hist_use(" + AB("s0") + "); } }")
+    st.hint("before: return Ok(self.prev_values[get_item]", "proof { lemma_hist_yield(O as int + 1, false, s0.dt@, s0.dt_max@, s0.yield_memory as int, self.yield_memory as int, s0.time@, s0.end@, s0.pv(), s0.pdb(), s0.save_state@.len(), s0.state@, s0.state@); }")
+    st.hint("before: #1 return Ok((self.time.real(), self.state.clone()));", """proof {
+            lemma_hist_handover(O as int + 1, false, s0.dt@, s0.dt_max@, s0.time@, s0.end@, s0.pv(), s0.pdb(), s0.save_state@.len(), s0.state@, s0.state@);
+            assert(self.pv() =~= s0.pv().push((s0.time@, s0.state@)).drop_first());
+            assert(self.pdb() =~= s0.pdb().push(s0.state@).drop_first());
+        }""")
+    st.hint("before: self.runge_kutta(1)", "let ghost pre4 = *self;")
+    st.hint("after: self.runge_kutta(1)", """proof {
+            reveal_with_fuel(rk_t, 2); reveal_with_fuel(rk_y, 2);
+            assert(pre4.rkt(1) == pre4.time@ + pre4.dt@);
+            assert(pre4.rky(1) == pre4.rk4s(pre4.time@, pre4.state@, pre4.dt@));
+            let pvn = pvv(self.prev_values);
+            assert(pvn[pvn.len() - 1] == (pre4.rkt(1), pre4.rky(1)));
+            lemma_hist_done(""" + AB("self") + """);
+        }""")
+    # -- no room for a start-up: one RK4 step, yielded at once
+    st.hint("before: #2 self.runge_kutta(1)", "let ghost pre6 = *self;")
+    st.hint("before: #2 return Ok((self.time.real(), self.state.clone()));", """proof {
+                reveal_with_fuel(rk_t, 2); reveal_with_fuel(rk_y, 2);
+                assert(pre6.rkt(1) == pre6.time@ + pre6.dt@);
+                assert(pre6.rky(1) == pre6.rk4s(pre6.time@, pre6.state@, pre6.dt@));
+                lemma_hist_empty(""" + AB("self") + """);
+            }""")
+    # -- start-up: O RK4 steps
+    st.hint("before: self.runge_kutta(O)", "let ghost pre5 = *self;")
+    st.hint("before: #1 return Err(IVPStatus::Redo);", """proof {
+                let pvn = pvv(self.prev_values); let pdn = self.pdb(); let dim = self.state@.len();
+                assert(pvv(pre5.prev_values).len() == 0);
+                assert forall|i: int| 0 <= i < pvn.len() - 1 implies #[trigger] spaced(pvn, i, self.dt@) by {
+                    reveal_with_fuel(rk_t, 2); assert(pre5.rkt(i + 2) == pre5.rkt(i + 1) + pre5.dt@);
+                }
+                assert forall|i: int| 0 <= i < pvn.len() implies #[trigger] entry_ok(pvn, pdn, i, dim, false) by {
+                    assert(pre5.rky(i + 1).len() == dim);
+                }
+                assert(pvn.len() == O && pdn.len() == O);
+                lemma_rk_t(pre5.time@, pre5.dt@, O as int);
+                let m = O as real; let hh = pre5.dt@; let od = self.order@;
+                assert(self.time@ == pre5.time@ + m * hh);
+                assert(m * hh + hh == hh * (od + 1real)) by(nonlinear_arith) requires m == od;
+                assert(self.time@ + self.dt@ < self.end@);
+                assert(pvn[pvn.len() - 1] == (self.time@, self.state@));
+                lemma_hist_intro(""" + AB("self") + """);
+            }""")
+    # -- the two residual closures: the BDF residual of order O-1 (higher) and O-2 (lower) with the solver's own coefficient rows
+    def closure_spec(n, row):
+        st.closure(n, ret="r_: Result<V, UserError>",
+                   requires=["t@ == old(bdf).time@ + old(bdf).dt@", "old(bdf).res_ok()", "y@.len() == old(bdf).state@.len()"],
+                   ensures=["final(bdf).frame(&*old(bdf))",
+                            "r_ is Ok ==> r_->Ok_0@.len() == y@.len()",
+                            f"r_ is Ok ==> r_->Ok_0@ == old(bdf).residual(vecr(old(bdf).{row}), t@, slice_view(y)) && df_ok(t@, slice_view(y))"])
+    closure_spec(1, "higher_coefficients")
+    closure_spec(2, "lower_coefficients")
+    for n, row in ((1, "higher_coefficients"), (2, "lower_coefficients")):
+        st.loop(n, iter=f"itc{n}", invariant=[
+            f"ind == itc{n}.index@ + 1 && 1 <= ind <= O", f"forall|k: int| 0 <= k < itc{n}.history@.len() ==> *itc{n}.history@[k] == bdf.{row}@[k + 1]",
+            "bdf.frame(&b0) && b0.res_ok() && y@.len() == b0.state@.len()",
+            f"bdf.scratch_pad@ == b0.bres(vecr(b0.{row}), t@, slice_view(y), ind as int) && bdf.scratch_pad@.len() == b0.state@.len()"])
+    for n in (1, 2):
+        st.hint(f"loop {n} begin", "proof { assert(b0.pv()[O - ind].1 == bdf.prev_values@[O - ind].1@); assert(b0.pv()[O - ind].1.len() == b0.state@.len()); }")
+    st.hint("before: let higher_step =", """let ghost pre = *self;
+        proof {
+            assert(pre.pv().len() == O);
+            assert forall|i: int| 0 <= i < O implies (#[trigger] pre.pv()[i]).1.len() == pre.state@.len() by { assert(entry_ok(s0.pv(), s0.pdb(), i, s0.state@.len(), false)); }
+            assert(pre.res_ok());
+        }""")
+    # accepted right after start-up: kept aside
+    st.hint("before: #2 return Err(IVPStatus::Redo);", "proof { lemma_hist_aside(O as int + 1, false, pre.dt@, pre.dt_max@, pre.time@, pre.end@, pre.pv(), pre.pdb(), pre.save_state@.len(), pre.state@, pre.state@, self.time@, self.state@, self.state@); }")
+    # accepted: enters the history
+    st.hint("before: if error < self.one_tenth.real() * self.tolerance.real()", """proof {
+                lemma_hist_shift(O as int + 1, false, pre.dt@, pre.dt_max@, pre.time@, pre.end@, pre.pv(), pre.pdb(), pre.save_state@.len(), pre.state@, pre.state@, self.time@, self.state@, self.state@);
+                assert(self.pv() =~= pre.pv().push((self.time@, self.state@)).drop_first());
+                assert(self.pdb() =~= pre.pdb().push(self.state@).drop_first());
+            }""")
+    st.hint("before: #3 return Ok((self.time.real(), self.state.clone()));", """proof {
+                let d = pre.dt@;
+                assert(d * 2real > 0real) by(nonlinear_arith) requires d > 0real;
+                if self.pv().len() == 0 { lemma_hist_empty(""" + AB("self") + """); }
+            }""")
+    # rejected
+    st.hint("before: if self.dt.real() < self.dt_min.real()", """proof {
+            let d = pre.dt@; let od = self.order@;
+            assert(0real < d * (1real / 2real) < d) by(nonlinear_arith) requires d > 0real;
+            assert(d * od >= 0real) by(nonlinear_arith) requires d > 0real, od >= 3real;
+        }""")
+    st.hint("before: #3 Err(IVPStatus::Redo)", "proof { lemma_hist_empty(" + AB("self") + "); }")
+    st.hint("before: #1 bdf.scratch_pad = -(bdf.derivative)", "let ghost b0 = *bdf;")
+    st.hint("before: #2 bdf.scratch_pad = -(bdf.derivative)", "let ghost b0 = *bdf;")
+    return u, j
+
+
 def units(ctx):
     u, f = rk_step_unit()
     ua, fa = adams_solver_unit()
+    ub, fb = bdf_solver_unit()
     return [tableau_unit("rk45_tableau", "RKCoefficients45", 6, "f45"), tableau_unit("rk23_tableau", "RK23Coefficients", 4, "bs"), u,
-            adams_tableau_unit("adams5_tableau", "AdamsCoefficients5", 5, "ab4", "am4"), adams_tableau_unit("adams3_tableau", "AdamsCoefficients3", 3, "ab2", "am2"), ua]
+            adams_tableau_unit("adams5_tableau", "AdamsCoefficients5", 5, "ab4", "am4"), adams_tableau_unit("adams3_tableau", "AdamsCoefficients3", 3, "ab2", "am2"), ua,
+            bdf_tableau_unit("bdf6_tableau", "BDF6Coefficients", 7, "bdf6", "bdf5"), bdf_tableau_unit("bdf2_tableau", "BDF2Coefficients", 3, "bdf2", "bdf1"), ub]
+
+
+DECIDED = [
+    "Runge-Kutta tableaux (RKCoefficients45, RK23Coefficients): nodes, every entry of the stage matrix AS NALGEBRA STORES IT (row i, column j), weights and error weights equal the published "
+    "Fehlberg 4(5) / Bogacki-Shampine 3(2) tables (error weights = difference of the two weight rows up to one common sign); the reference tables are guarded by consistency lemmas",
+    "RungeKuttaSolver::step: an accepted point is exactly one explicit Runge-Kutta step of the observed length h from the previous point with the solver's tableau "
+    "(stage i = h f(t + c_i h, y + sum_{j<i} a_ij K_j), new state = y + sum b_i K_i) and its embedded estimate |sum e_i K_i| / h is <= tolerance; a rejected trial commits nothing",
+    "Adams coefficient tables = published Adams-Bashforth (k = O-1 steps) / Adams-Moulton weights; AdamsSolver::runge_kutta(n) = n classical RK4 steps, each new point and its derivative appended to the history",
+    "AdamsSolver::step: the history invariant (equally spaced points, each stored derivative belongs to its point's time, lengths) is preserved by every branch; an accepted multistep point is "
+    "y + h (c_0 f(t + h, P) + sum c_j d_j) with P = y + h sum p_j d_j over that history and error estimate <= tolerance; the point after the start-up enters the history together with its derivative; "
+    "a rejected trial right after the start-up rewinds by (O-1) dt",
+    "BDF coefficient tables = published BDF(O-1) and BDF(O-2) formulas (normalised); BDFSolver::runge_kutta = classical RK4 steps",
+    "BDFSolver::step: the two residual closures compute y - b h f(t, y) + sum_j a_j y_(n+1-j) with the HIGHER resp. LOWER coefficient row and the stored points, leave every field but scratch_pad alone; "
+    "secant and jac_finite_diff evaluate the function they are handed ONLY at the new time time + dt (precondition of every call) and leave the solver unchanged; "
+    "jac_finite_diff returns, for every pure function the callback computes, its central DIFFERENCES of width dt; the history invariant (O equally spaced stored points, sentinels O+1/O+2) is preserved by every branch; "
+    "a rejected trial right after the start-up rewinds the clock by order * dt and restores the saved state",
+    "EulerSolver::step (C06 unit): y + dt f(t, y)",
+]
+NOT_DECIDED = [
+    "BDF: that the accepted value solves the residual equation to within the tolerance -- secant() stops on the size of its last quasi-Newton update, not on the residual; the Broyden update operations carry no contract "
+    "(what IS decided: which function is solved, at which time, with which coefficients)",
+    "solve() of the three adaptive builders (nalgebra generic constructors): that the tableaux are copied unchanged into the solver is trusted",
+    "Adams: the stored derivative of a multistep point is f(t, predictor) (PEC), stated as 'f evaluated at time t'; complex number types; rounding",
+    "the step-size controllers (`eighty_four = from_u8(100)` in rk.rs makes the safety factor 1.0: policy, deliberately not part of this property)",
+]
+ASSUMPTIONS = [
+    "prelude/ivp.rs, rkm.rs, rkh.rs, dmx.rs, deque.rs: nalgebra vectors/matrices as ghost-valued shims (from_vec column-major, from_row_slice row-major, row_iter = rows in order, set_column), "
+    "VecDeque::is_empty/back assumed specifications; the Broyden-update matrix operations are typed only",
+    "the derivative callback is a pure function of (t, y) returning a vector of the state's dimension",
+    "R16 `?` with conversion spelled as match; R26-R31 (see DESIGN.md): row_iter/column_iter_mut loops as index loops, reference patterns, tuple clone, reference operators as calls, arguments reading `self` bound before `g(self, ..)`",
+    "powf(x, y) > 0 for x > 0 and < 1 for 0 < x < 1, y > 0 (Adams step-size factor); an exactly zero Adams error estimate (tolerance / 0) is excluded from the invariant clause",
+    "thiserror-generated From impls (UserError -> IVPError -> IVPStatus::Failure) are trusted",
+    "exact reals",
+]
